@@ -57,7 +57,8 @@ pub fn gen_example(s: &mut Src, rec: &mut Rec) -> Result<ExCase, PanicInfo> {
             (d, (d + 1) * 8, 8)
         },
         _ => {
-            let n = 1usize << s.range(0, 1);
+            // at least two signatures: the example's own `verify_with_wrong_inputs` swaps the first two keys
+            let n = 1usize << s.range(1, 2);
             (n, n * 1024, 8)
         },
     };
